@@ -14,7 +14,9 @@ CLAIMED = {
              "accepting path z3 proves the frame is a well-formed answer (function, byte count, length, echo, checksum), "
              "every other outcome must be one of refuse/partial/rejected. Bound: frame length (quick 0..24 and the full-frame "
              "neighbourhoods, thorough every length 0..264). CRC: uninterpreted in the harness, closed by lemma K-CRC "
-             "(real table-driven function == bitwise CRC-16/MODBUS, bounded by message length plus an inductive step for all lengths).",
+             "(real table-driven function == bitwise CRC-16/MODBUS, bounded by message length plus an inductive step for all lengths). "
+             "Transport half: with an answer arriving in two pieces (every split point, symbolic delays, exact/short/long/foreign/"
+             "symbolic second piece; RTU, TCP, AA55) the bytes that execute() returns must be a well-formed answer to the request.",
         note="Trusted: z3, the int/bytes/bytearray/io name-rebinding shims (cross-validated per harness against concrete runs of the "
              "pristine code), the reference frame grammar. Outside: frames > 264 bytes; transport delivery is C04/C07.",
         ref="§1 C01", tech=TECH + "; QF_BV lemma for the CRC"),
@@ -22,7 +24,9 @@ CLAIMED = {
         text="Same encoding as C01 with the dual obligation: on every path that does not accept, z3 must refute 'frame is "
              "conforming' (strict grammar incl. checksum relation, any payload, any comm address, trailing bytes); on accepting "
              "paths ProtocolResponse.response_data() must equal the frame's payload bytes. All frame lengths up to 264 "
-             "(thorough) so the AA55 checksum range (sum up to 0xFFFF) is covered.",
+             "(thorough) so the AA55 checksum range (sum up to 0xFFFF) is covered. Transport scenarios in the virtual "
+             "network: a complete conforming answer must succeed at once (a) after an earlier request left a fragment "
+             "whose missing tail has this answer's length, (b) while another caller's request of another shape is queued.",
         note="Trusted as C01. The CRC is uninterpreted: 'conforming' means the trailer equals the stub result for the right slice.",
         ref="§1 C02", tech=TECH),
     "C03": dict(
@@ -30,7 +34,10 @@ CLAIMED = {
              "protocol.read_command/write_command/write_multi_command, Aa55* commands, the ES setter commands) with symbolic "
              "comm address/register/count/value/payload: every produced byte is proven equal to the canonical encoding; "
              "building never raises inside the stated domain. Transaction id: inductive step on the real _next_tx from an "
-             "arbitrary state of the invariant 0..0xFFFE (covers histories of any length incl. the 16-bit wrap).",
+             "arbitrary state of the invariant 0..0xFFFE (covers histories of any length incl. the 16-bit wrap). History: "
+             "another protocol object (any comm address) built the same command before. Wire view: one request against "
+             "the scripted peer of C04 (losses, garbage, fragments, connection faults, counter near the wrap): every "
+             "transmitted frame is decoded by an independent decoder, Modbus/TCP ids are non-zero and change per transmission.",
         note="Trusted: z3, shims (hex-format tokens, bytes.fromhex, int.to_bytes), reference encoder and the independent decoder used "
              "for replay. CRC as in C01. AA55 multi writes only for 8-byte groups.",
         ref="§1 C03", tech=TECH + "; inductive invariant for the transaction counter"),
